@@ -590,6 +590,102 @@ func (g *gen) val(s *S, depth int) *V {
 }
 
 // genCase draws a schema that the harness can realise and the request lines for it.
+// richMapField adds a Go map whose element type is one where state carried over from one entry to the next would
+// show: slices (append accumulates), pointers and nested maps (allocated only when nil), structs with optional /
+// omitempty fields (a missing key leaves what was there), arrays, interfaces, byte slices.
+func (g *gen) richMapField(depth int) *F {
+	m := mk("map")
+	switch g.rng.Intn(4) {
+	case 0:
+		m.KT = &S{K: "u", W: 64, N: -1, Code: -1}
+	case 1:
+		m.KT = &S{K: "barr", N: 2, Code: -1}
+	default:
+		m.KT = mk("str")
+	}
+	optStruct := func() *S {
+		s := mk("struct")
+		for i := g.rng.Range(2, 4); i > 0; i-- {
+			f := &F{Mode: "fld", Key: g.key(nil), Omit: g.rng.Chance(2, 3)}
+			switch g.rng.Intn(5) {
+			case 0:
+				f.T = mk("slice")
+				f.T.E = &S{K: "u", W: 16, N: -1, Code: -1}
+			case 1:
+				f.T = mk("ptr")
+				f.T.E = st(-1, &F{Mode: "fld", Key: g.key(nil), T: mk("str")})
+				f.Opt = true
+			case 2:
+				f.T = mk("u256")
+				f.Opt = g.rng.Bool()
+			case 3:
+				f.T = mk("str")
+			default:
+				f.T = &S{K: "i", W: 32, N: -1, Code: -1}
+			}
+			s.Fields = append(s.Fields, f)
+		}
+
+		return s
+	}
+	switch g.rng.Intn(8) {
+	case 0:
+		m.E = mk("slice")
+		m.E.E = hx.Pick(g.rng, []*S{{K: "u", W: 16, N: -1, Code: -1}, {K: "str", N: -1, Code: -1}, {K: "bytes", N: -1, Code: -1}})
+	case 1:
+		m.E = mk("ptr")
+		m.E.E = optStruct()
+	case 2:
+		m.E = mk("map")
+		m.E.KT, m.E.E = mk("str"), hx.Pick(g.rng, []*S{{K: "u", W: 8, N: -1, Code: -1}, {K: "str", N: -1, Code: -1}})
+		if g.rng.Bool() {
+			m.E.E = mk("slice")
+			m.E.E.E = &S{K: "i", W: 64, N: -1, Code: -1}
+		}
+	case 3:
+		m.E = optStruct()
+	case 4:
+		m.E = mk("slice")
+		m.E.E = optStruct()
+	case 5:
+		m.E = mk("arr")
+		m.E.N, m.E.E = 2, mk("slice")
+		m.E.E.E = &S{K: "u", W: 32, N: -1, Code: -1}
+	case 6:
+		m.E = mk("bytes")
+	default:
+		m.E = g.typ(depth + 1)
+	}
+
+	return &F{Mode: "fld", Key: g.key(nil), T: m, Omit: g.rng.Chance(1, 4)}
+}
+
+// richMapVal draws a map value with at least two entries of clearly different content (lengths, nil-ness,
+// which optional fields are present).
+func (g *gen) richMapVal(s *S) *V {
+	v := &V{K: "m"}
+	seen := map[string]bool{}
+	for tries := 0; len(v.M) < g.rng.Range(2, 4) && tries < 20; tries++ {
+		k := g.val(s.KT, 1)
+		if seen[k.Canon()] {
+			continue
+		}
+		seen[k.Canon()] = true
+		var e *V
+		if len(v.M)%2 == 1 && g.rng.Chance(2, 3) {
+			e = g.zeroish(s.E)
+			if valueInexpressible(s.E, e) != "" && !isSoft(valueInexpressible(s.E, e)) {
+				e = g.val(s.E, 1)
+			}
+		} else {
+			e = g.val(s.E, 1)
+		}
+		v.M = append(v.M, [2]*V{k, e})
+	}
+
+	return v
+}
+
 func genCase(rng *hx.Rng) []string {
 	for {
 		g := &gen{rng: rng, maxDepth: rng.Range(1, 4), tb: map[int]*S{}, wide: rng.Chance(1, 6), odd: rng.Chance(1, 6)}
@@ -597,12 +693,22 @@ func genCase(rng *hx.Rng) []string {
 		if len(top.Fields) == 0 && rng.Chance(4, 5) {
 			continue
 		}
+		rich := -1
+		if rng.Chance(1, 6) {
+			g.odd = false
+			top.Fields = append(top.Fields, g.richMapField(1))
+			rich = len(top.Fields) - 1
+		}
 		if _, err := newWorld(top); err != nil {
 			continue
 		}
 		lines := []string{"def " + top.String()}
 		for i := rng.Range(1, 3); i > 0; i-- {
-			lines = append(lines, fmt.Sprintf("enc %s %s", b01(rng.Chance(1, 3)), g.val(top, 0)))
+			v := g.val(top, 0)
+			if rich >= 0 && v.K == "st" && len(v.L) == len(top.Fields) {
+				v.L[rich] = g.richMapVal(top.Fields[rich].T)
+			}
+			lines = append(lines, fmt.Sprintf("enc %s %s", b01(rng.Chance(1, 3)), v))
 		}
 
 		return lines
